@@ -537,7 +537,103 @@ def run_mp_faults(task):
     return res
 
 
+def silent_survivor_grid(tier):
+    """A worker dies abnormally, a survivor's message reaches the parent *after* that death, and then every survivor stays
+    alive and silent for a long time (a long refutation, or a put blocked on a lock the victim held)."""
+    cases = []
+    for mi in (0, 1):
+        for k in (2, 3):
+            for op, ovar in (("solve", None), ("minimize", 1), ("maximize", 0)):
+                for manner in ("sigkill", "exit1", "raise"):
+                    for victim in range(k):
+                        cases.append({"mi": mi, "k": k, "op": op, "ovar": ovar, "manner": manner, "victim": victim})
+    return cases
+
+
+def run_mp_silent_survivor(task):
+    from framework.planes import mpreal
+
+    import nucs.solvers.multiprocessing_solver as mps
+
+    t0 = time.time()
+    res = {"evals": 0, "fails": [], "fail_counts": {}, "samples": [], "counters": {}, "hashes": [], "mode": MODE,
+           "undecided": [], "grid_size": 0}
+    mpreal.install()
+    grid = task.get("grid") or silent_survivor_grid(task.get("tier", "quick"))
+    res["grid_size"] = len(grid)
+    mine = [c for i, c in enumerate(grid) if i % task["nchunks"] == task["chunk"]]
+    if task.get("limit"):
+        rnd = random.Random(task.get("seed", 0) * 11 + task["chunk"])
+        rnd.shuffle(mine)
+        mine = mine[: task["limit"]]
+    silent, patience = task.get("silent_s", 70.0), task.get("patience_s", 25.0)
+
+    def cnt(k, n=1):
+        res["counters"][k] = res["counters"].get(k, 0) + n
+
+    for c in mine:
+        progress.mark({"silent_survivor_case": c})
+        case = {"model": FAULT_MODELS[c["mi"]], "var": 0, "k": c["k"], "cfg": {"calg": "bc", "vh": "first", "dh": "min"}}
+        solvers = build_workers(case)
+        k = len(solvers)
+        victim = c["victim"] % k
+        # the victim lives long enough for all workers to be observed alive, sends one message and dies; every survivor
+        # sends its first message one second later and is then silent for `silent` seconds
+        delays = {str(w): ([0.6] if w == victim else [1.6, silent]) for w in range(k)}
+        fault = {"worker": victim, "point": "after_message", "index": 0, "manner": c["manner"]}
+        mpreal.set_plan(delays=delays, fault=fault)
+        ms = mps.MultiprocessingSolver(solvers, log_level="ERROR")
+        op, ovar = c["op"], c["ovar"]
+
+        def call(ms=ms, op=op, ovar=ovar):
+            if op == "solve":
+                return [tuple(int(x) for x in s) for s in ms.solve()]
+            r = ms.minimize(ovar) if op == "minimize" else ms.maximize(ovar)
+            return None if r is None else tuple(int(x) for x in r)
+
+        devnull = os.open(os.devnull, os.O_WRONLY)
+        saved_err = os.dup(2)
+        os.dup2(devnull, 2)
+        try:
+            box = mpreal.call_with_oracle(call, wall_cap=silent + 40, timed_patience=60.0, expected_children=k,
+                                          exit_patience=patience)
+        finally:
+            os.dup2(saved_err, 2)
+            os.close(saved_err)
+            os.close(devnull)
+        mpreal.set_plan()
+        res["evals"] += 1
+        cnt("silent_survivor.cases")
+        cnt("silent_survivor.outcome." + box["how"])
+        res["hashes"].append(case_hash(["silent", c]))
+        if box.get("first_exit_after") is not None:
+            cnt("silent_survivor.death_observed_before_the_call_ended")
+        fails = []
+        if box["how"] in ("blocked_after_death", "deadlock"):
+            fails.append({"prop": "C18", "kind": "caller_blocked_while_survivors_are_silent", "detail": box["detail"]})
+        elif box["how"] == "undecided":
+            res["undecided"].append({"silent_survivor_case": c, "detail": box["detail"]})
+        elif box["how"] == "returned" and k > 1:
+            # the victim never announced completion and the survivors had not finished: a normal return within the
+            # patience window cannot contain the survivors' remaining results
+            pass
+        if len(res["samples"]) < 2:
+            res["samples"].append({"silent_survivor_case": c, "outcome": box["how"], "exc": box.get("exc"),
+                                   "wall": round(box.get("wall", 0), 2)})
+        for f in fails:
+            key = "%s|%s" % (f["kind"], c["manner"])
+            n = res["fail_counts"].get(key, 0)
+            res["fail_counts"][key] = n + 1
+            if n < 4:
+                res["fails"].append(dict(f, silent_survivor_case=c, mode=MODE))
+    res["wall"] = time.time() - t0
+    return res
+
+
 def replay_fault(task):
+    if "silent_survivor_case" in task["witness"]:
+        r = run_mp_silent_survivor({"grid": [task["witness"]["silent_survivor_case"]], "chunk": 0, "nchunks": 1})
+        return {"fails": r["fails"], "counters": r["counters"]}
     """Re-runs one recorded fault case through the same oracle."""
     fc = task["witness"]["fault_case"]
     grid = [c for c in fault_grid("thorough") if c["mi"] == fc["model_index"] and c["case"]["k"] == fc["k"]
